@@ -2,18 +2,20 @@
 (***************************************************************************)
 (* C17 property monitor over records taken from the REAL client stacks      *)
 (* (harness bin `pipeline`, release build and release + debug assertions).  *)
-(* One record per (vector, payload, spelling): the concrete request, what   *)
-(* the caller got, and every panic the global hook saw while the request    *)
-(* and all tasks spawned for it ran to quiescence.  Every record is one     *)
+(* One record per (vector, payload, spelling): the concrete request, the    *)
+(* configuration and the history it was sent with, what the caller got, and *)
+(* every panic the global hook saw while the previous requests, the request *)
+(* and all tasks spawned for them ran to quiescence.  Every record is one   *)
 (* initial state; the property formulas of Pipeline.tla are evaluated on    *)
 (* the real observation.  This module decides VIOLATION.                    *)
 (*   PipelineObs.cfg         report mode (always-TRUE invariants printing a  *)
 (*                           BAD line for every clause evaluated to FALSE)   *)
 (*   PipelineObs_strict.cfg  the clauses are the INVARIANTs (replay)         *)
-(* A real outcome class outside the set the model allows for the vector is  *)
-(* DRIFT (DIFF lines), never a violation.                                   *)
+(* A real outcome class outside the set the model allows for the vector, or *)
+(* a connection re-used / dialled against the model's prediction, is DRIFT  *)
+(* (DIFF lines), never a violation.                                         *)
 (***************************************************************************)
-EXTENDS Pipeline, Sequences, Json, IOUtils
+EXTENDS Pipeline, Json, IOUtils
 
 Rec == ndJsonDeserialize(IOEnv.TRACE)
 N == Len(Rec)
@@ -22,40 +24,58 @@ VARIABLE l
 
 R == Rec[l]
 X == [ver |-> R.v.ver, method |-> R.v.method, uri |-> R.v.uri, host |-> R.v.host, stack |-> R.v.stack,
-      transport |-> R.v.transport, da |-> R.v.da]
+      transport |-> R.v.transport, net |-> R.v.net, pool |-> R.v.pool, idle |-> R.v.idle, maxidle |-> R.v.maxidle,
+      cap |-> R.v.cap, rto |-> R.v.rto, redir |-> R.v.redir, ct |-> R.v.ct, het |-> R.v.het, hec |-> R.v.hec,
+      ka |-> R.v.ka, buf |-> R.v.buf, hist |-> R.v.hist, da |-> R.v.da]
 
 Range(s) == {s[i] : i \in DOMAIN s}
 
 \* the real observation in the vocabulary of the property
-O == [panicked |-> R.obs.panicked,                      \* caller's task unwound, or the hook saw a panic in any task
-      returned |-> R.obs.result \in {"resp", "err"}]
+O == [panicked |-> R.obs.panicked,                      \* a caller's task unwound, or the hook saw a panic in any task
+      returned |-> R.obs.result \in {"resp", "err"},
+      stuck    |-> R.obs.stuck]                         \* the request's future did not return from a poll (wall clock)
 
 ObsInit == /\ l \in 1..N
            /\ v = X /\ asBuilt = FALSE /\ pc = "done" /\ conn = "none"
-           /\ out = [classes |-> {R.obs.class}, stage |-> "real"]
+           /\ out = [classes |-> {R.obs.class}, stage |-> "real", reuse |-> "none"]
 ObsNext == UNCHANGED <<l, vars>>
 
-WellFormed == /\ v \in Vectors
+\* "notrun": not executed because the probe of one of its configuration classes is stuck (no observation)
+Executed == R.obs.class # "notrun"
+
+WellFormed == /\ IsVector(v)
               /\ [hdr |-> R.v.hdr, body |-> R.v.body] \in Payloads
-              /\ R.obs.panicked \in BOOLEAN
-              /\ R.obs.class \in {"resp", "err", "panic", "task-panic", "hang"}
+              /\ R.obs.panicked \in BOOLEAN /\ R.obs.stuck \in BOOLEAN
+              /\ R.obs.class \in {"resp", "err", "panic", "task-panic", "hang", "stuck", "notrun"}
               /\ (R.obs.class \in {"panic", "task-panic"}) = R.obs.panicked
+              /\ (R.obs.class = "stuck") = R.obs.stuck
               /\ R.build = (IF v.da THEN "da" ELSE "release")     \* executed by the build the vector names
 
 Bad(c) == PrintT(<<"BAD", ToJson([i |-> l, clause |-> c])>>)
 
 \* report mode
 R_NoPanic == P_NoPanic(v, O) \/ Bad("NoPanic")
+R_NoStall == P_NoStall(v, O) \/ Bad("NoStall")
 \* strict mode: the property itself
 C17_NoPanic == P_NoPanic(v, O)
+C17_NoStall == P_NoStall(v, O)
 
 \* not part of the oracle (a request that is neither answered nor failed within 30 s of virtual time): reported
-Unresolved == O.returned \/ O.panicked \/ PrintT(<<"HANG", ToJson([i |-> l])>>)
+Unresolved == ~Executed \/ O.returned \/ O.panicked \/ O.stuck \/ PrintT(<<"HANG", ToJson([i |-> l])>>)
 
-\* conformance (DRIFT only): R.exp / R.expAsBuilt = outcome classes TLC computed on Pipeline.tla for the vector
-RealClass == IF R.obs.class = "task-panic" THEN "panic" ELSE R.obs.class
-ObsDrift == /\ (RealClass \in Range(R.exp.classes) \/ PrintT(<<"DIFFI", ToJson([i |-> l])>>))
+\* conformance (DRIFT only): R.exp / R.expAsBuilt = outcome classes TLC computed on Pipeline.tla for the vector;
+\* R.exp.reuse = the model's statement about the connection ("yes": one of a previous request, "no": a new one)
+RealClass == CASE R.obs.class = "task-panic" -> "panic"
+               [] R.obs.class = "stuck" -> "stall"
+               [] OTHER -> R.obs.class
+\* "yes": no connection is dialled for the request; "no": a response needs a connection dialled for it (an error can
+\* precede the dial: the server-name conversion, the HTTP/2 and HTTP/1 checks of a request that is never sent)
+ReuseOk == /\ (Range(R.exp.reuse) = {"yes"} /\ O.returned) => R.obs.dialsFinal = 0
+           /\ (Range(R.exp.reuse) = {"no"} /\ R.obs.result = "resp") => R.obs.dialsFinal > 0
+ObsDrift == ~Executed \/
+            /\ (RealClass \in Range(R.exp.classes) \/ PrintT(<<"DIFFI", ToJson([i |-> l])>>))
             /\ (RealClass \in Range(R.expAsBuilt.classes) \/ PrintT(<<"DIFFA", ToJson([i |-> l])>>))
+            /\ (ReuseOk \/ PrintT(<<"DIFFR", ToJson([i |-> l])>>))
 
 Consumed == PrintT(<<"CONSUMED", TLCGet("stats").distinct, N>>) /\ TLCGet("stats").distinct = N
 =============================================================================
